@@ -45,6 +45,12 @@ def json_case(cid, rng, t, st):
     t = _unify_chance(t)
     ts = cli.sort_tree(t)
     text = json.dumps(cli.tree_to_json(t))
+    # the same document as other byte sequences: pretty-printed, with leading / trailing white space
+    c = rng.random()
+    if c < 0.2:
+        text = json.dumps(cli.tree_to_json(t), indent=rng.choice([1, 2, 4]))
+    if c < 0.1 or 0.2 <= c < 0.35:
+        text = rng.choice(["\n", "  ", "\t\n ", "\r\n"]) + text + rng.choice(["", "\n", " \n"])
     multi, singles = infosets_of(ts)
     names = {"i1": {}, "i2": {}, "a": {}}
 
